@@ -482,9 +482,17 @@ def gen_cli_tables(repo):
     return '\n'.join(out) + '\n'
 
 
+def _lazy(modname, fname):
+    def run(repo):
+        import importlib
+        return getattr(importlib.import_module(modname), fname)(repo)
+    return run
+
+
 MODULES = {
     'CliTables': gen_cli_tables,
     'CliGen': gen_cli,
+    'EdGen': _lazy('gen_ed', 'gen_ed'),
 }
 
 if __name__ == '__main__':
